@@ -82,7 +82,7 @@ func (c *ChunkReader) Read(p []byte) (int, error) {
 }
 
 // Schedule kinds for NewSchedule.
-var ScheduleKinds = []string{"one-byte", "small", "large", "zeros", "eof-with-data", "whole", "primes", "split-marks"}
+var ScheduleKinds = []string{"one-byte", "small", "large", "zeros", "eof-with-data", "whole", "primes", "split-marks", "lines-eof-with-data"}
 
 // NewSchedule builds a chunk reader of the named kind. marks are byte offsets the "split-marks" schedule forces
 // boundaries at (inside runes, escape pairs, delimiters, CRLF pairs, the BOM).
@@ -103,6 +103,18 @@ func NewSchedule(kind string, data []byte, r *core.Rand, marks []int) *ChunkRead
 		}, false)
 	case "eof-with-data":
 		return NewChunkReader(data, func() int { return r.Range(1, 64) }, true)
+	case "lines-eof-with-data":
+		// one line (up to and including its line feed) per Read, the last one together with io.EOF
+		var cr *ChunkReader
+		cr = NewChunkReader(data, func() int {
+			for i := cr.pos; i < len(data); i++ {
+				if data[i] == '\n' {
+					return i + 1 - cr.pos
+				}
+			}
+			return len(data) - cr.pos
+		}, true)
+		return cr
 	case "whole":
 		return NewChunkReader(data, func() int { return 1 << 30 }, false)
 	case "primes":
